@@ -207,10 +207,18 @@ def planted(rng, pname, cell_kind, copies, atol=0.05, ndecoy=0, perturb_div=8.0,
                 fr = frac if frac is not None else [rng.random() for _ in range(3)]
                 origin = np.array(fr, dtype=float).dot(cf)
                 pts = []
+                # some copies are uniformly stretched about the first atom: every atom stays within atol/4 of the best
+                # rigid fit, but the far end of the long pair lies beyond the exact pattern length
+                stretch = 1.0
+                exact = perturb and rng.random() < 0.25      # an exact rigid image (no noise at all)
+                if exact:
+                    perturb = False
+                elif perturb and d > 0 and rng.random() < 0.3:
+                    stretch = 1.0 + 0.4 * atol / d
                 for p in src:
-                    v = np.array([float(x) for x in fl.matvec(R, p)]) + origin
+                    v = np.array([float(x) for x in fl.matvec(R, p)]) * stretch + origin
                     if perturb:
-                        v = v + np.array([rng.uniform(-1, 1) for _ in range(3)]) * (atol / perturb_div / math.sqrt(3))
+                        v = v + np.array([rng.uniform(-1, 1) for _ in range(3)]) * (atol / perturb_div / math.sqrt(3)) * (0.5 if stretch != 1.0 else 1.0)
                     pts.append(wrap(v, cf, cinv))
                 if far_enough(pts):
                     base = len(pos)
